@@ -172,8 +172,11 @@ def m_object_likely(c, binp, tier, k_quick=3, k_thorough=5):
 
 
 def m_matches(c, binp, tier, kind="match"):
-    c.add_model(run_model("%s-matches-%s" % (c.prop, kind), "MC_Matches", {"Kind": kind},
+    c.add_model(run_model("%s-matches-%s" % (c.prop, kind), "MC_Matches", {"Kind": kind, "Domain": "base"},
                           MATCH_INV if kind == "match" else CMP_INV, binp=binp, workers=10, expect_cases="distinct-108"))
+    # near-collision field values (one byte apart, one character longer, numeric regions sharing digits): all 250 000 pairs
+    c.add_model(run_model("%s-matches-%s-near" % (c.prop, kind), "MC_Matches", {"Kind": kind, "Domain": "near"},
+                          MATCH_INV if kind == "match" else CMP_INV, binp=binp, workers=12, expect_cases="distinct-500"))
 
 
 def m_cmp(c, binp, tier):
@@ -186,9 +189,10 @@ def m_cmp(c, binp, tier):
 
 
 def m_meta(c, binp, tier):
-    runs = [("meta-AB2", {"MaxSteps": 2, "SeedSet": "AB"}), ("meta-D2", {"MaxSteps": 2, "SeedSet": "D"})]
+    runs = [("meta-AB2", {"MaxSteps": 2, "SeedSet": "AB"}), ("meta-D2", {"MaxSteps": 2, "SeedSet": "D"}), ("meta-E2", {"MaxSteps": 2, "SeedSet": "E"})]
     if tier == "thorough":
-        runs += [("meta-AB3", {"MaxSteps": 3, "SeedSet": "AB"}), ("meta-C2", {"MaxSteps": 2, "SeedSet": "C"}), ("meta-D3", {"MaxSteps": 3, "SeedSet": "D"})]
+        runs += [("meta-AB3", {"MaxSteps": 3, "SeedSet": "AB"}), ("meta-C2", {"MaxSteps": 2, "SeedSet": "C"}), ("meta-D3", {"MaxSteps": 3, "SeedSet": "D"}),
+                 ("meta-E3", {"MaxSteps": 3, "SeedSet": "E"})]
     for name, consts in runs:
         c.add_model(run_model("%s-%s" % (c.prop, name), "MC_Meta", consts, ["SplitAgrees"], properties=["ParseInvariant"],
                               binp=binp, workers=10, expect_cases="transitions"))
@@ -247,6 +251,17 @@ def m_sweep(c, binp, tier, parts=("known", "und"), tag="", stride=1):
         c.extra_cov["universe_triples_swept"] = c.extra_cov.get("universe_triples_swept", 0) + want
         c.extra_cov.setdefault("sweep_parts", []).append({"part": part + tag, "languages": st.get("sweep_languages"), "scripts": st.get("sweep_scripts"),
                                                             "regions": st.get("sweep_regions"), "classes": st.get("sweep_class", st.get("sweep_dir_class")), "stride": stride})
+
+
+def m_stateless(c, binp, tier, ops="all", tag=""):
+    """sequences of related likely-subtags / direction calls: every call answers as if it were the first (MC_Stateless.tla)"""
+    data_env()
+    runs = [("stateless-k2", dict(K=2, Ops=ops))]
+    if tier == "thorough":
+        runs += [("stateless-k3", dict(K=3, Ops=ops))]
+    for name, consts in runs:
+        c.add_model(run_model("%s-%s%s" % (c.prop, name, tag), "MC_Stateless", consts, ["Stateless", "EmitCase"], binp=binp, workers=10,
+                              expect_cases="noninitial", timeout=7200))
 
 
 # ------------------------------------------------------------------------------------------------
@@ -376,6 +391,7 @@ def C06(tier, seed):
     binp = build_harness(ALL)
     m_cldr(c, binp, tier, modes=("keys", "closure"))
     m_sweep(c, binp, tier, parts=("known", "und"))
+    m_stateless(c, binp, tier)
     traces(c, binp, "likely", tier, quick_n=3000, thorough_n=40000)
     return c.finish(rule="the WHOLE universe (7142 CLDR languages + und + unknown languages) x (164 CLDR scripts + absent + unknown) x (259 CLDR regions + absent + unknown), about 3.1e8 triples, through likelysubtags::maximize, each triple mapped to its equivalence class and compared with the answer pattern MC_Sweep.tla derives for the class (class partition, representative independence and sufficiency of the relevant sets are invariants TLC checks on the specification); additionally all 8219 CLDR keys plus the closure (every language x {absent, scripts keyed with it, known others, unknown} x same for regions; und x all scripts x all regions) through likelysubtags::maximize and LanguageIdentifier::maximize; allowed answers computed by Maximize over the table TLC loads from data/likelySubtags.json",
                     assumptions=ASSUME_COMMON + ["the universe is the CLDR subtag universe plus representatives of unknown subtags; two subtags outside the data are assumed to behave like any other two (checked on the specification, measured on the code for the representatives swept)"], exhaustive=True)
@@ -401,6 +417,7 @@ def C08(tier, seed):
     m_laws(c, tier)
     m_cldr(c, binp, tier, modes=("closure",))
     m_sweep(c, binp, tier, parts=("known", "und"))
+    m_stateless(c, binp, tier)
     m_object_likely(c, binp, tier)
     traces(c, binp, "hist", tier, quick_n=2500)
     traces(c, binp, "likely", tier, quick_n=1500)
@@ -474,6 +491,9 @@ def C14(tier, seed):
     m_cldr(c, off, tier, modes=("dir",), tag="-likely-off")
     m_sweep(c, on, tier, parts=("dir",), tag="-likely-on")
     m_sweep(c, off, tier, parts=("dir",), tag="-likely-off")
+    # sequences of related calls: every call answers as if it were the first (maximize / minimize calls in between count too)
+    m_stateless(c, on, tier, ops="all", tag="-likely-on")
+    m_stateless(c, off, tier, ops="dir", tag="-likely-off")
     traces(c, on, "likely", tier, quick_n=2000, tag="-on")
     traces(c, off, "likely", tier, quick_n=2000, tag="-off")
     return c.finish(rule="every identifier of the 3.1e8-triple universe through character_direction() in both configurations, compared per (language class, script class) with the directions AllowedDir permits (MC_Sweep.tla, part dir); all 709 CLDR layout locales and script/language/region probes through character_direction() in both feature configurations (two harness builds); allowed directions derived in TLA+ from the layout files",
@@ -738,18 +758,53 @@ def C16(tier, seed):
         keys = sorted({rnd.choice("abcdefghijklmnopqrstuvwxyz0123456789") + rnd.choice("abcdefghijklmnopqrstuvwxyz") for _ in range(3 * k)})[:k]
         loc_ok_s.append(noisy("en-US-u-" + "-".join(kk + "-" + rw(3, 8) for kk in reversed(keys)) + "-t-" + "-".join("de-" + v for v in vs[:1])
                               + "-" + "-".join("abcdefghij"[i] + str(rnd.randint(0, 9)) + "-" + rw(3, 8) for i in range(min(k, 10))) + "-x-" + "-".join(rw(1, 8) for _ in range(k))))
-    ok = macrogen.gen_ok_crate(li_ok_s, loc_ok_s, sub_ok_s)
-    c.extra_cov["programs"] = 2
+    # real words: every two-letter language of the CLDR data (retired codes such as iw / in / ji are keys of their own), a
+    # sample of the longer ones, every script and a sample of regions attached; and the words the library's own sources
+    # mention (a code the implementation, or one feature configuration of it, treats specially), in the positions they fit
+    cl = json.load(open(os.environ["VERIF_LIKELY"]))["supplemental"]["likelySubtags"]
+    c_langs, c_scripts, c_regions = set(), set(), set()
+    for k, v in cl.items():
+        for t in k.split("-") + v.split("-"):
+            (c_scripts if len(t) == 4 else c_regions if (len(t) == 2 and t.isupper()) or t.isdigit() else c_langs).add(t)
+    words, _, _ = engine.source_dictionary()
+    import re as _re
+    d_langs = [w for w in words if _re.fullmatch(r"[A-Za-z]{2,3}|[A-Za-z]{5,8}", w)]
+    d_scripts = [w for w in words if _re.fullmatch(r"[A-Za-z]{4}", w)]
+    d_regions = [w for w in words if _re.fullmatch(r"[A-Za-z]{2}|[0-9]{3}", w)]
+    d_variants = [w for w in words if _re.fullmatch(r"[A-Za-z0-9]{5,8}|[0-9][A-Za-z0-9]{3}", w)]
+    two = sorted(l for l in c_langs if len(l) == 2)
+    longer = sorted(l for l in c_langs if len(l) != 2)
+    rnd.shuffle(longer)
+    real_li = two + longer[: (60 if tier == "quick" else 600)] + d_langs
+    sc, rg = sorted(c_scripts) + d_scripts, sorted(c_regions) + d_regions
+    real_li += ["%s-%s" % (rnd.choice(two), x) for x in sc] + ["%s-%s" % (rnd.choice(two + d_langs), x) for x in rg[:: (4 if tier == "quick" else 1)]]
+    real_li += ["%s-%s-%s" % (l, rnd.choice(sc), rnd.choice(rg)) for l in d_langs] + ["en-%s" % v for v in d_variants]
+    real_loc = ["%s-u-ca-buddhist" % l for l in d_langs + two[::9]] + ["en-t-%s-h0-hybrid" % l for l in d_langs + two[::9]]
+    real_sub = [("language", l) for l in d_langs] + [("script", x) for x in d_scripts] + [("region", x) for x in d_regions] + [("variant", x) for x in d_variants]
+    li_ok_s += real_li
+    loc_ok_s += real_loc
+    sub_ok_s += real_sub
+    # one invocation of each list macro with a long list (expansion depth grows with the list in a recursive macro)
+    long_lists = [sorted(set(two))[:150], (sorted(set(two)) + ["%s-Latn" % l for l in two])[: (300 if tier == "quick" else 700)]]
+    ok = macrogen.gen_ok_crate(li_ok_s, loc_ok_s, sub_ok_s, long_lists=long_lists)
+    c.extra_cov["programs"] = 3
     c.extra_cov["macro_invocations_wellformed"] = ok["invocations"]
-    if not ok["built"]:
-        c.dis.append({"props": ["C16"], "what": "well-formed-literals-do-not-compile", "source": "macros_ok",
-                      "detail": {"log": ok["log"][-3000:]}})
-    else:
-        if ok["rc"] != 0:
-            c.dis.append({"props": ["C16", "C01"], "what": "macro-program-died", "source": "macros_ok", "detail": {"rc": ok["rc"]}})
-        r = engine.validate_trace("C16-macro-events", ok["trace"])
-        c.add_trace(r)
-        c.samples.append({"macro_event": open(ok["trace"]).readline()[:300]})
+    # the same program in the other extreme feature configuration: the macros run at build time in a host build of the
+    # parser, the comparison runs in the target build; the two must agree whatever features the target has
+    all_feats = ("macros", "likelysubtags", "serde")
+    ok2 = macrogen.gen_ok_crate(li_ok_s[:: (3 if tier == "quick" else 1)] + real_li, loc_ok_s[:: (3 if tier == "quick" else 1)] + real_loc, sub_ok_s[::3] + real_sub,
+                                features=all_feats, name="macros_ok_allfeatures")
+    c.extra_cov["macro_invocations_wellformed_all_features"] = ok2["invocations"]
+    for tag, okx in (("", ok), ("-all-features", ok2)):
+        if not okx["built"]:
+            c.dis.append({"props": ["C16"], "what": "well-formed-literals-do-not-compile" + tag, "source": "macros_ok" + tag,
+                          "detail": {"log": okx["log"][-3000:]}})
+        else:
+            if okx["rc"] != 0:
+                c.dis.append({"props": ["C16", "C01"], "what": "macro-program-died" + tag, "source": "macros_ok" + tag, "detail": {"rc": okx["rc"]}})
+            r = engine.validate_trace("C16-macro-events" + tag, okx["trace"])
+            c.add_trace(r)
+            c.samples.append({"macro_event": open(okx["trace"]).readline()[:300]})
     # ill-formed literals: a compile error at that invocation, and only there
     bad = [("langid", s) for s in pick(li_bad, cap // 2)] + [("locale", s) for s in pick(loc_bad, cap // 2)]
     bad += [({"language": "lang"}.get(k, k), s) for k, s in pick(sub_bad, cap // 4)]
